@@ -204,6 +204,28 @@ func (h *hist) nextTx(t *rapid.T) (txSpec, bool) {
 			return tx, true
 		}
 	}
+	if len(w.feeds) > 0 && rapid.IntRange(0, 4).Draw(t, "feedanswer") == 0 {
+		// answer an active request of a feed's context, so that feeds accumulate a value history
+		type req struct{ id, provider string }
+		var reqs []req
+		k.Service.IterateRequests(ctx, func(id tmbytes.HexBytes, r servicetypes.CompactRequest) bool {
+			if !k.Service.IsRequestActive(ctx, id) {
+				return false
+			}
+			cid, _ := hex.DecodeString(r.RequestContextId)
+			if rc, ok := k.Service.GetRequestContext(ctx, cid); ok && rc.ModuleName == "oracle" {
+				reqs = append(reqs, req{id.String(), r.Provider})
+			}
+			return len(reqs) >= 16
+		})
+		if len(reqs) > 0 {
+			r := pick(t, "feedreq", reqs)
+			if pu := userIndex(h.n, r.provider); pu >= 0 {
+				out := fmt.Sprintf(`{"header":{},"body":{"last":"%d.%02d"}}`, rapid.IntRange(0, 5000).Draw(t, "val"), rapid.IntRange(0, 99).Draw(t, "frac"))
+				return txSpec{pu, h.enc(&servicetypes.MsgRespondService{RequestId: r.id, Provider: r.provider, Result: hResult, Output: out})}, true
+			}
+		}
+	}
 	if rapid.IntRange(0, 11).Draw(t, "govfam") == 0 {
 		if tx, ok := h.govTx(t); ok {
 			return tx, true
